@@ -156,7 +156,7 @@ def factor(value: NumberType) -> Dict[NumberType, NumberType]:
             2 : 1
         }
     """
-    if value == 0 or math.isnan(value):
+    if value == 0 or math.isnan(value) or math.isinf(value):
         return {}
     np.seterr(invalid="ignore")  # type:ignore
     sqrt: float = np.sqrt(value)  # type:ignore
